@@ -795,3 +795,127 @@ Fixpoint collapse (s : stm) : stm :=
   | other => other
   end.
 Definition collapse_list (l : list stm) : list stm := map collapse l.
+
+(* ================================================== semantic normal forms
+   (behaviour-preserving rewrites of the source must not matter) *)
+
+(* ---- 1. the SET OF PATHS of a tree: every way through the ifs, as the
+   sequence of events met; a return / raise ends the path.  Early return vs
+   else branch, a negated test with swapped branches, "if a: if b:" vs
+   "if a and b:" all give the same set.  Loops are blocks: "[" alternatives
+   of the body "]". ---- *)
+Inductive tok :=
+| TE (e : ev) | TRaise (x : string) | TLb | TLe | TAlt | TExit | TTry.
+
+Definition tok_eqb (a b : tok) : bool :=
+  match a, b with
+  | TE x, TE y => ev_is x y
+  | TRaise x, TRaise y => String.eqb x y
+  | TLb, TLb | TLe, TLe | TAlt, TAlt | TExit, TExit | TTry, TTry => true
+  | _, _ => false
+  end.
+
+Fixpoint toks_eqb (x y : list tok) : bool :=
+  match x, y with
+  | [], [] => true
+  | a :: r, b :: s => tok_eqb a b && toks_eqb r s
+  | _, _ => false
+  end.
+
+Fixpoint paths (s : stm) : list (list tok * bool) :=
+  let seqp := fix seqp (l : list stm) : list (list tok * bool) :=
+    match l with
+    | [] => [([], false)]
+    | x :: r =>
+        flat_map (fun p : list tok * bool =>
+                    if snd p then [p]
+                    else map (fun q : list tok * bool =>
+                                ((fst p ++ fst q)%list, snd q)) (seqp r))
+                 (paths x)
+    end in
+  match s with
+  | SEv e => [([TE e], false)]
+  | SRaise x => [([TRaise x], true)]
+  | SExit => [([], true)]
+  | SIf a b => (seqp a ++ seqp b)%list
+  | SLoop b =>
+      [((TLb :: flat_map (fun p : list tok * bool =>
+                            (TAlt :: fst p ++ (if snd p then [TExit] else []))%list)
+                         (seqp b) ++ [TLe])%list, false)]
+  | STry _ _ _ _ => [([TTry], false)]
+  end.
+
+Fixpoint paths_list (l : list stm) : list (list tok * bool) :=
+  match l with
+  | [] => [([], false)]
+  | x :: r =>
+      flat_map (fun p : list tok * bool =>
+                  if snd p then [p]
+                  else map (fun q : list tok * bool =>
+                              ((fst p ++ fst q)%list, snd q)) (paths_list r))
+               (paths x)
+  end.
+
+Definition path_subset (a b : list (list tok)) : bool :=
+  forallb (fun p => existsb (toks_eqb p) b) a.
+
+(* the two trees have the same set of paths *)
+Definition same_paths (t u : list stm) : bool :=
+  let a := map fst (paths_list t) in
+  let b := map fst (paths_list u) in
+  path_subset a b && path_subset b a.
+
+(* ---- 2. loops: a nest of loops around a body is that body looped; equal
+   single-call loops in a row are one ("for m in (a, b, c): for x in m: f(x)"
+   = three loops) ---- *)
+Fixpoint unnest (s : stm) : stm :=
+  let go := fix go (l : list stm) : list stm :=
+              match l with [] => [] | x :: r => unnest x :: go r end in
+  match s with
+  | SLoop b => match go b with
+               | [SLoop c] => SLoop c
+               | b' => SLoop b'
+               end
+  | SIf a b => SIf (go a) (go b)
+  | other => other
+  end.
+
+Fixpoint merge_loops (l : list stm) : list stm :=
+  match l with
+  | [] => []
+  | x :: r =>
+      match x, r with
+      | SLoop [SEv (Call f)], SLoop [SEv (Call g)] :: _ =>
+          if String.eqb f g then merge_loops r else x :: merge_loops r
+      | _, _ => x :: merge_loops r
+      end
+  end.
+
+Definition loop_norm (t : list stm) : list stm :=
+  merge_loops (map unnest (no_reads_list t)).
+
+(* ---- 3. static number of occurrences of an event in a tree ---- *)
+Fixpoint occ (p : ev -> bool) (s : stm) : nat :=
+  let go := fix go (l : list stm) : nat :=
+              match l with [] => O | x :: r => (occ p x + go r)%nat end in
+  match s with
+  | SEv e => if p e then 1%nat else O
+  | SIf a b => (go a + go b)%nat
+  | SLoop b => go b
+  | STry b hs o f =>
+      (go b + fold_right (fun h n => (go (snd h) + n)%nat) O hs + go o + go f)%nat
+  | _ => O
+  end.
+Fixpoint occ_list (p : ev -> bool) (l : list stm) : nat :=
+  match l with [] => O | x :: r => (occ p x + occ_list p r)%nat end.
+
+Definition is_rd (c : string) (e : ev) : bool :=
+  match e with Rd d => String.eqb c d | _ => false end.
+Definition is_wr_any (e : ev) : bool :=
+  match e with Wr _ => true | _ => false end.
+
+(* sync, normal form: under the lock, the guarded copy loop into data, then
+   the merges through _add_to_store *)
+Definition expected_sync_norm : list stm :=
+  [ SEv (Acq "store"); SLoop [SIf [SEv (Wr "data")] []];
+    SLoop [SEv (Call "add_to_store")]; SEv (Rel "store") ].
